@@ -133,6 +133,22 @@ def impl(case):
                 bad.append(["lenght", ln, want])
         except Exception as e:  # noqa: BLE001
             bad.append(["lenght", type(e).__name__])
+    # Integrate.function: per-span polynomials of degree < nnodes are integrated exactly (the curve itself is one; so is
+    # u -> u^p); exact rules give the exact Fraction, float rules agree within rounding
+    from fractions import Fraction
+    ks = sorted(set(U))
+    mono = sum((b ** (p + 1) - a ** (p + 1)) / (p + 1) for a, b in zip(ks[:-1], ks[1:]))
+    for fn, want, tag in ((lambda u: curve(u), exact, "curve"), (lambda u: u ** p, mono, "monomial")):
+        for method, nn in ((None, None), ("open-newton-cotes", p + 2), ("gauss-legendre", p + 1), ("chebyshev", p + 2)):
+            try:
+                val = Integrate.function(curve.knotvector, fn, method, nn)
+                if method in (None, "open-newton-cotes"):
+                    if not isinstance(val, (int, Fraction)) or val != want:
+                        bad.append(["function", tag, method, nn, str(val), str(want)])
+                elif abs(float(val) - float(want)) > 1e-9 * max(1.0, abs(float(want))):
+                    bad.append(["function", tag, method, nn, float(val), float(want)])
+            except Exception as e:  # noqa: BLE001
+                bad.append(["function", tag, method, nn, type(e).__name__])
     if before != (tuple(curve.knotvector), tuple(curve.ctrlpoints)):
         bad.append(["curve modified"])
     return {"r0": r0, "rc": rc, "ro": ro, "float_failures": bad}
